@@ -25,7 +25,12 @@ Cat == {
   Ok(<< <<4, 6>> >>, << Svc(<<1>>, <<T(1), U(1)>>) >>),
   Ok(<< <<4, 1>>, <<5, 5>> >>, <<>>),                                          \* bad cipher among the legacy keys
   Ok(<<>>, << Svc(<<2, 1>>, <<U(1), T(3)>>), Svc(<<4>>, <<T(2)>>) >>),
-  Ok(<<>>, << Svc(<<1, 7, 2>>, <<T(1), U(1)>>), Svc(<<7, 4>>, <<T(2), U(2)>>) >>)
+  Ok(<<>>, << Svc(<<1, 7, 2>>, <<T(1), U(1)>>), Svc(<<7, 4>>, <<T(2), U(2)>>) >>),
+  \* "siblings": the listeners of a configuration above with OTHER keys, failing after that service was processed
+  \* (state of a rejected configuration must not leak into the running one)
+  Ok(<<>>, << Svc(<<3, 6>>, <<T(1), U(1)>>), Svc(<<1, 5>>, <<T(3)>>) >>),     \* bad cipher in the second service
+  Ok(<<>>, << Svc(<<6>>, <<T(1), U(1)>>), Svc(<<2>>, <<T(2), U(3)>>) >>),        \* valid; fails when T(2)/U(3) cannot be bound
+  Ok(<< <<4, 3>>, <<5, 6>> >>, << Svc(<<1, 5>>, <<T(2)>>) >>)                   \* legacy ports of another configuration, then a bad cipher
 }
 \* configurations that load (hand-over scenarios, C11)
 CatOk == {
@@ -46,6 +51,7 @@ CatSmall == {
   Ok(<<>>, << Svc(<<6>>, <<T(2), U(2)>>), Svc(<<1, 5>>, <<T(3)>>) >>),
   [kind |-> "malformed", legacy |-> <<>>, svcs |-> <<>>],
   Ok(<< <<4, 6>> >>, << Svc(<<1>>, <<T(1), U(1)>>) >>),
-  Ok(<< <<4, 1>>, <<5, 5>> >>, <<>>)
+  Ok(<< <<4, 1>>, <<5, 5>> >>, <<>>),
+  Ok(<<>>, << Svc(<<3, 6>>, <<T(1), U(1)>>), Svc(<<1, 5>>, <<T(3)>>) >>)
 }
 ===============================================================================
